@@ -401,13 +401,15 @@ func (e *Enc) addObl(o *Obligation) {
 }
 
 func (f *Frame) safetyObl(kind, what, goal string) {
-	if !f.enc.safety {
-		return
-	}
 	if goal == "true" {
 		return
 	}
 	guard := f.reach[f.curBlock]
+	if !f.enc.safety {
+		// absence of panics is decided under C19; here it is an assumption
+		f.enc.ctx.assert(implies(guard, goal))
+		return
+	}
 	f.enc.addObl(&Obligation{
 		Name:  fmt.Sprintf("%s#safe.%s[%s]", f.prefix, kind, what),
 		Kind:  "safe." + kind,
